@@ -53,6 +53,12 @@ Definition top_pv (n : wnode) : pv :=
         (number_children [body_pv its])
   end.
 
+(* ... the same when the element NAME may hold colons (top level only: UmlBlobDefs.top_head) *)
+Definition top_pv_c (n : wnode) : pv :=
+  match n with
+  | WNode id nm ty its _ => with_children (top_head id nm ty) (number_children [body_pv its])
+  end.
+
 (* domain of the text-level theorem: plain keys, values, ids; layout strings made of line breaks, tabs, blanks, ( ) , ;
    free text (IRaw: e.g. an HTML documentation) with closed quoted texts and no ';' or brace outside them *)
 Fixpoint wf_node (n : wnode) : bool :=
@@ -92,4 +98,10 @@ Fixpoint nbq_node (n : wnode) : bool :=
   end.
 
 (* str(bytes) quotes with an apostrophe unless the bytes hold an apostrophe and no double quote *)
+(* the domain for a row's blob: as wf_node, but the NAME in the top-level header may hold colons *)
+Definition wf_top (n : wnode) : bool :=
+  match n with
+  | WNode id nm ty its tl => headok_top id nm ty && wf_node (WNode id None ty its tl)
+  end.
+
 Definition quote_ok (s : string) : bool := negb (no_char DQ s) || no_char SQ s.
